@@ -1,18 +1,19 @@
 #!/bin/bash
 # tools/validate_seeded.sh <mutant dir with patch.diff demo.py> ... : confirm each seeded change in a scratch
 # worktree: demo passes without, fails with; full suite still passes with the change. Writes validated.json beside it.
-WT=/tmp/val_wt
+WT=${VAL_WT:-/tmp/val_wt}   # VAL_WT=<worktree> lets several validations run in parallel
+T=$(mktemp -d /tmp/val.XXXXXX)
 if [ ! -d $WT ]; then git -C /repo worktree add -q --detach $WT HEAD; fi
 for d in "$@"; do
   [ -f "$d/patch.diff" ] || continue
   [ -f "$d/validated.json" ] && continue
   git -C $WT checkout -q --detach $(git -C /repo rev-parse HEAD); git -C $WT checkout -- .
   cd $WT
-  PYTHONPATH=$WT /venv/bin/python "$d/demo.py" > /tmp/val_demo0.out 2>&1; clean=$?
+  PYTHONPATH=$WT /venv/bin/python "$d/demo.py" > $T/demo0.out 2>&1; clean=$?
   if ! git -C $WT apply "$d/patch.diff"; then echo "{\"applies\": false}" > "$d/validated.json"; continue; fi
-  PYTHONPATH=$WT /venv/bin/python "$d/demo.py" > /tmp/val_demo1.out 2>&1; mut=$?
-  PYTHONPATH=$WT /venv/bin/python -m pytest -q -p no:cacheprovider -n 6 --timeout=900 > /tmp/val_suite.out 2>&1
-  suite=$(tail -1 /tmp/val_suite.out)
+  PYTHONPATH=$WT /venv/bin/python "$d/demo.py" > $T/demo1.out 2>&1; mut=$?
+  PYTHONPATH=$WT /venv/bin/python -m pytest -q -p no:cacheprovider -n 6 --timeout=900 > $T/suite.out 2>&1
+  suite=$(tail -1 $T/suite.out)
   git -C $WT checkout -- .
   echo "{\"applies\": true, \"repo_head\": \"$(git -C /repo rev-parse --short HEAD)\", \"demo_exit_clean\": $clean, \"demo_exit_mutated\": $mut, \"suite_with_change\": \"$suite\"}" > "$d/validated.json"
   echo "$d: clean=$clean mutated=$mut suite=$suite"
